@@ -664,6 +664,103 @@ pub fn case_strategy() -> impl Strategy<Value = SpawnCase> {
         })
 }
 
+// ------------------------------------------------------------------------------------------
+// `start` feature carrier: Environment::Inherit needs a real start-up (no-libc probe)
+// ------------------------------------------------------------------------------------------
+
+#[derive(Debug, Clone, Serialize, Deserialize)]
+pub struct InheritCase {
+    /// environment block the probe is started with (raw entries)
+    pub envp: Vec<BStr>,
+    /// extra arguments handed through to the helper
+    pub args: Vec<BStr>,
+    /// false: environment untouched (Inherit); true: two provided entries, nothing inherited
+    pub provided: bool,
+    pub exit_code: u8,
+    /// which probe build: 0 dyn-debug, 1 pie-release
+    pub build: u8,
+}
+
+fn probe_path(build: u8) -> std::path::PathBuf {
+    let root = vh::runner::verif_root();
+    let (mode, prof) = if build == 0 { ("dyn-debug", "debug") } else { ("pie-release", "release") };
+    std::path::PathBuf::from(format!("{root}/probes/target-{mode}/x86_64-unknown-linux-gnu/{prof}/probe-spawn"))
+}
+
+pub fn check_inherit(ctx: &Ctx, c: &InheritCase) -> CaseResult {
+    let mut rep = CaseReport::new();
+    let probe = probe_path(c.build);
+    if !probe.exists() {
+        return Err(Failure::new("harness|probe-spawn missing", format!("{}", probe.display())));
+    }
+    let root = std::path::PathBuf::from(format!("/tmp/verif-c13i-{}-{}", std::process::id(), ctx.worker));
+    let _ = std::fs::remove_dir_all(&root);
+    std::fs::create_dir_all(&root).unwrap();
+    let dump = root.join("dump.json");
+    let helper = helper_path();
+    let mut argv_model: Vec<Vec<u8>> = vec![helper.as_os_str().as_bytes().to_vec(), dump.as_os_str().as_bytes().to_vec(), c.exit_code.to_string().into_bytes(), b"-".to_vec()];
+    argv_model.extend(c.args.iter().map(|a| a.0.clone()));
+    let cstr = |b: &[u8]| std::ffi::CString::new(b.to_vec()).unwrap();
+    let mut argv_c: Vec<std::ffi::CString> = vec![cstr(if c.provided { b"probe-p" } else { b"probe-i" })];
+    argv_c.extend(argv_model.iter().map(|a| cstr(a)));
+    let envp_c: Vec<std::ffi::CString> = c.envp.iter().map(|e| cstr(&e.0)).collect();
+    let mut argv_p: Vec<*mut libc::c_char> = argv_c.iter().map(|s| s.as_ptr() as *mut libc::c_char).collect();
+    argv_p.push(core::ptr::null_mut());
+    let mut envp_p: Vec<*mut libc::c_char> = envp_c.iter().map(|s| s.as_ptr() as *mut libc::c_char).collect();
+    envp_p.push(core::ptr::null_mut());
+    let path = cstr(probe.as_os_str().as_bytes());
+    let mut pid: libc::pid_t = 0;
+    let rc = unsafe { libc::posix_spawn(&mut pid, path.as_ptr(), core::ptr::null(), core::ptr::null(), argv_p.as_ptr(), envp_p.as_ptr()) };
+    if rc != 0 {
+        let _ = std::fs::remove_dir_all(&root);
+        return Err(Failure::new("harness|posix_spawn failed", format!("errno {rc}")));
+    }
+    let mut st = 0;
+    unsafe { libc::waitpid(pid, &mut st, 0) };
+    let res = (|| -> Result<(), Failure> {
+        ensure!(libc::WIFEXITED(st), "spawn (start feature)|probe crashed", "probe-spawn ended with wait status {st:#x}");
+        let code = libc::WEXITSTATUS(st);
+        ensure!(code != 250, "spawn (start feature)|spurious failure", "Command::spawn of the helper failed inside the probe");
+        ensure!(code == i32::from(c.exit_code), "spawn (start feature)|wrong exit status", "probe reports child status {code}, helper was asked to exit with {}", c.exit_code);
+        let txt = std::fs::read_to_string(&dump).map_err(|e| Failure::new("spawn (start feature)|child did not run the requested program", format!("no dump: {e}")))?;
+        let d: serde_json::Value = serde_json::from_str(&txt).map_err(|e| Failure::new("harness|dump parse", e.to_string()))?;
+        let got_args: Vec<Vec<u8>> = d["args"].as_array().unwrap().iter().map(|a| unhex(a.as_str().unwrap())).collect();
+        ensure!(got_args == argv_model, "spawn (start feature)|argv differs", "child saw argv {:?}, configured {:?}", got_args.iter().map(|a| escape(a)).collect::<Vec<_>>(), argv_model.iter().map(|a| escape(a)).collect::<Vec<_>>());
+        let raw = unhex(d["raw_env"].as_str().unwrap());
+        let got: Vec<Vec<u8>> = if raw.is_empty() { vec![] } else { raw[..raw.len() - usize::from(raw.last() == Some(&0))].split(|&b| b == 0).map(|s| s.to_vec()).collect() };
+        let want: Vec<Vec<u8>> = if c.provided { vec![b"P1=one".to_vec(), b"P2=".to_vec()] } else { c.envp.iter().map(|e| e.0.clone()).collect() };
+        // an empty entry cannot be told apart in the NUL-separated /proc view: compare without them
+        let norm = |v: &Vec<Vec<u8>>| v.iter().filter(|e| !e.is_empty()).cloned().collect::<Vec<_>>();
+        ensure!(norm(&got) == norm(&want), if c.provided { "spawn (start feature)|provided environment differs" } else { "spawn (start feature)|inherited environment differs" }, "child environment {:?}, expected {:?}", got.iter().map(|a| escape(a)).collect::<Vec<_>>(), want.iter().map(|a| escape(a)).collect::<Vec<_>>());
+        Ok(())
+    })();
+    let _ = std::fs::remove_dir_all(&root);
+    res?;
+    rep.nontrivial_if(!c.envp.is_empty());
+    rep.class(if c.provided { "provided-under-start" } else { "inherit-under-start" });
+    rep.class(if c.build == 0 { "probe-dyn-debug" } else { "probe-pie-release" });
+    rep.class_if(c.envp.iter().any(|e| !e.0.contains(&b'=')), "entry-without-equals");
+    Ok(rep)
+}
+
+fn inherit_strategy() -> impl Strategy<Value = InheritCase> {
+    let raw_entry = prop_oneof![
+        6 => env_entry(),
+        1 => prop::collection::vec(prop::sample::select(vec![b'A', b'x', b'_']), 1..5).prop_map(BStr),
+        1 => prop::collection::vec(1u8..=255u8, 1..40).prop_map(BStr),
+    ];
+    (prop::collection::vec(raw_entry, 0..20), prop::collection::vec(arg_bytes(), 0..6), prop::bool::weighted(0.3), any::<u8>(), 0u8..2).prop_map(|(envp, args, provided, exit_code, build)| {
+        // 250..=252 are the probe's own failure codes
+        let exit_code = if exit_code >= 250 { exit_code - 10 } else { exit_code };
+        InheritCase { envp, args, provided, exit_code, build }
+    })
+}
+
 pub fn run(ctx: &Ctx) {
     ctx.run_prop("spawn", ctx.cases(250, 8000), case_strategy(), |c| check_spawn(ctx, c));
+    // only the `start` binary drives the start-up carrier
+    let me = std::env::current_exe().ok().and_then(|p| p.file_name().map(|n| n.to_string_lossy().to_string())).unwrap_or_default();
+    if me == "c13" {
+        ctx.run_prop("start-probe", ctx.cases(60, 3000), inherit_strategy(), |c| check_inherit(ctx, c));
+    }
 }
